@@ -81,6 +81,8 @@ type Gen struct {
 	Soak string
 	// SoakVers makes every run of the batch VERS-heavy with many distinct ranges.
 	SoakVers bool
+	// Sweep turns the batch into systematic single-preemption sweeps (see sweepSpec).
+	Sweep bool
 	// Lifetimes enables the garbage-collection fault (the tree under test uses
 	// finalizers, cleanups, weak pointers or unique handles).
 	Lifetimes bool
@@ -287,6 +289,57 @@ func mutate(p *prng, s string) string {
 
 // Spec generates the spec of run `index` of the check identified by (seed, tier).
 func (g *Gen) Spec(seed uint64, index int) Spec {
+	if g.Sweep {
+		return g.sweepSpec(seed, index)
+	}
+	return g.spec(seed, index)
+}
+
+// sweepGroup is the number of consecutive run indices that share one base spec
+// in a sweep batch.
+const sweepGroup = 400
+
+// sweepSpec: a systematic single-preemption sweep. All runs of a group share
+// one small base spec (two tasks, one or two operations each, on the related
+// spellings of a cold family); run k of the group preempts one task at its
+// k-th yield, lets the other task run to completion, and resumes. Over a group
+// every single-preemption interleaving of those operations is executed, which
+// random schedules only approach.
+func (g *Gen) sweepSpec(seed uint64, index int) Spec {
+	base := index - index%sweepGroup
+	sp := g.spec(seed, base)
+	sp.Index = index
+	sp.Seed = RunSeed(seed, g.Tier, index)
+	if len(sp.Tasks) > 2 {
+		sp.Tasks = sp.Tasks[:2]
+	}
+	for t := range sp.Tasks {
+		if len(sp.Tasks[t]) > 2 {
+			sp.Tasks[t] = sp.Tasks[t][:2]
+		}
+	}
+	sp.Prewarm = nil
+	k := (index % sweepGroup) / 2
+	victim := int32(1 + index%2)
+	other := int32(3) - victim
+	if len(sp.Tasks) < 2 {
+		other = victim
+	}
+	op := int32(0)
+	lstep := uint32(k)
+	if k >= sweepGroup/4 && len(sp.Tasks[victim-1]) > 1 {
+		// second half of the group: preempt inside the second operation
+		op, lstep = 1, uint32(k-sweepGroup/4)
+	}
+	sp.Sched = simrt.Sched{Policy: simrt.PolExplicit, Seed: sp.Seed, Explicit: []simrt.Switch{
+		{Task: 0, To: victim, Kind: 3},
+		{Task: victim, Op: op, Lstep: lstep, To: other, Kind: 0},
+		{Task: other, To: victim, Kind: 1},
+	}}
+	return sp
+}
+
+func (g *Gen) spec(seed uint64, index int) Spec {
 	rs := RunSeed(seed, g.Tier, index)
 	p := &prng{s: rs}
 	thorough := g.Tier == "thorough"
